@@ -38,7 +38,9 @@ pub fn est_reads(ops: &[Op], rounds0: u32) -> usize {
 }
 
 pub fn gen_rounds(rng: &mut Prng) -> Option<u8> {
-    match rng.below(20) {
+    match rng.below(22) {
+        // edges of the u8 round count and of arithmetic on it (doubling, +1, table values)
+        20 | 21 => Some(*rng.pick(&[1u8, 2, 63, 64, 65, 85, 86, 127, 128, 129, 152, 153, 170, 171, 196, 197, 254, 255])),
         0 => None, // default 64
         1 => Some(rng.range(65, 255) as u8),
         2 | 3 => Some(rng.range(9, 64) as u8),
